@@ -426,9 +426,31 @@ func (g *genState) genForProgram(p *Prog, allLabels []string, n int, pending []I
 		}
 		if len(g.countEqus) > 0 && r.Intn(3) == 0 {
 			// an expression over EQUs written before this block; Unroll evaluates it
-			f.Count = Bin{'%', Par{Bin{'+', Ref{pick(r, g.countEqus)}, Lit{V: cnt}}}, Lit{V: 4}}
-			if r.Intn(2) == 0 {
-				f.Count = Ref{pick(r, g.countEqus)}
+			q := Ref{pick(r, g.countEqus)}
+			switch r.Intn(7) {
+			case 0, 1:
+				f.Count = Bin{'%', Par{Bin{'+', q, Lit{V: cnt}}}, Lit{V: 4}}
+			case 2, 3:
+				f.Count = q
+			case 4:
+				// a literal first, then an operator that binds tighter than what the EQU's text may contain
+				// (EQU values are spliced in as text: 2*N with N equ 1+1 is 2*1+1)
+				f.Count = Bin{'*', Lit{V: 1 + r.Intn(2)}, q}
+			case 5:
+				f.Count = Bin{'-', Lit{V: 3 + r.Intn(4)}, q}
+			default:
+				f.Count = Bin{'+', Bin{'%', q, Lit{V: 3}}, Lit{V: r.Intn(2)}}
+			}
+		} else if depth > 1 && len(g.ctrs) > 0 && r.Intn(3) == 0 {
+			// the count of an inner block depends on the counter of an enclosing one
+			outer := Ref{g.ctrs[len(g.ctrs)-1]}
+			switch r.Intn(3) {
+			case 0:
+				f.Count = Bin{'+', outer, Lit{V: r.Intn(2)}}
+			case 1:
+				f.Count = outer
+			default:
+				f.Count = Bin{'-', Lit{V: 3}, outer}
 			}
 		} else {
 			f.Count = Lit{V: cnt}
